@@ -105,5 +105,74 @@ PROPS['C15'] = Prop(
     assumptions=COMMON_ASSUME + ['str(o) of an object dispatches to the proved __str__ of its dynamic class ($str summary)'],
 )
 
+ENFORCE_SIDE = ['policy:Enforcer._enforce_scope', 'policy:Enforcer._map_context_attributes_into_creds']
+
+PROPS['C03'] = Prop(
+    functions=['policy:Rules.__missing__', '_checks:RuleCheck.__call__'],
+    bounded=[('bounded.enforce', 'c03')],
+    level='other',
+    technique='contract-based deductive verification of the rule-store lookup (own VC generator + z3); the enforce() branch structure is a labelled bounded stand-in until its contract is discharged within budget',
+    explanation='PROVED for all inputs: Rules.__missing__ returns exactly lookup(): the default rule only when it is a '
+                'check object or a non-empty name that is itself defined, KeyError otherwise, never re-entering itself; '
+                'RuleCheck denies on an undefined reference. BOUNDED: the three enforce() branches (empty rule set, '
+                'KeyError, defined name) over the complete table of rule sets on {a, b, default} x default-rule '
+                'configurations x queried names.',
+    assumptions=COMMON_ASSUME + ['default_rule is None, a string or a check object',
+                                 'rule sets that are cyclic through the default-rule fallback are excluded (C06/C13 territory)'],
+)
+
+PROPS['C06'] = Prop(
+    functions=['_checks:RuleCheck.__call__', '_checks:_check', 'policy:Rules.__missing__', '_checks:NotCheck.__call__',
+               '_checks:AndCheck.__call__', '_checks:OrCheck.__call__'],
+    bounded=[('bounded.enforce', 'c06')],
+    level='other',
+    technique='contract-based deductive verification (own VC generator + z3) of the reference check and the pass-through of current_rule; bounded stand-in for whole-rule-set transparency',
+    explanation='PROVED for all inputs: rule:NAME looks NAME up in the enforcer\'s store at call time through '
+                'lookup() and returns exactly EV of the definition with the same target, credentials, enforcer and '
+                'current_rule (undefined: deny); _check and the connectives forward current_rule unchanged. BOUNDED: '
+                'random acyclic rule sets compared with their inlined definitions; custom 3/4-argument checks record '
+                'the name they are told.',
+    assumptions=COMMON_ASSUME + ['a KeyError raised inside the referenced definition is swallowed as deny (http: check '
+                                 'with a missing target key) -- outside C06\'s quantifier'],
+)
+
+PROPS['C07'] = Prop(
+    functions=ENFORCE_SIDE,
+    bounded=[('bounded.enforce', 'c07')],
+    level='other',
+    technique='bounded stand-in (the enforce() contract exists but is not discharged within the quick budget); helper contracts proved deductively',
+    explanation='BOUNDED: do_raise on/off agreement, custom exception construction, PolicyNotAuthorized naming, authorize '
+                'gate, with debug logging on and off and targets the dump cannot serialise. PROVED helpers: '
+                '_enforce_scope, _map_context_attributes_into_creds.',
+    assumptions=['bounded for the top-level clause'],
+)
+
+PROPS['C08'] = Prop(
+    functions=ENFORCE_SIDE,
+    bounded=[('bounded.enforce', 'c08')],
+    level='other',
+    technique='contract-based deductive verification of the scope gate (own VC generator + z3) + complete enumeration of the finite table through enforce()',
+    explanation='PROVED for all credentials and scope-type lists: _enforce_scope derives system/domain/project exactly as '
+                'stated and returns True / False / raises InvalidScope per the table; _map_context_attributes_into_creds '
+                'returns a fresh dict equal to the policy values. ENUMERATED COMPLETELY (the property\'s own finite '
+                'space): the gate as wired into enforce(), 18k rows.',
+    assumptions=COMMON_ASSUME + ['warnings are not turned into errors', 'do_raise is a boolean'],
+)
+
+PROPS['C14'] = Prop(
+    functions=['_checks:RoleCheck.__call__', '_checks:GenericCheck.__call__', '_checks:GenericCheck._find_in_dict',
+               '_checks:RuleCheck.__call__', '_checks:NotCheck.__call__', '_checks:AndCheck.__call__',
+               '_checks:OrCheck.__call__', '_checks:_check', 'policy:Rules.__missing__'],
+    bounded=[('bounded.enforce', 'c14')],
+    level='other',
+    technique='contract-based deductive verification: exception freedom is an obligation on every path of every evaluation function (own VC generator + z3); enforce() itself is covered by a bounded stand-in',
+    explanation='PROVED for all well-formed trees, mapping targets and JSON-like credentials: no evaluation function of '
+                'the built-in checks raises (every subscript, unpack, format, call and stub outcome is an obligation); '
+                'a left side that is not a literal, a missing attribute or a non-container on the path deny. BOUNDED: '
+                'the exception surface of enforce() on hostile leaves.',
+    assumptions=COMMON_ASSUME + ['http:/https: checks are outside C14 (their transport exceptions are C16\'s)',
+                                 'ast.literal_eval stub outcome set; % raises only KeyError under well-formed placeholders'],
+)
+
 for _pid in PROPS:
     NOT_APPLICABLE.pop(_pid, None)
